@@ -149,6 +149,7 @@ type State struct {
 	callN   map[string]int
 	dead    bool
 	lockCount int
+	writes    map[string]map[string]bool
 }
 
 func (s *State) clone() *State {
@@ -174,6 +175,14 @@ func (s *State) clone() *State {
 		n.freshRefs[k] = v
 	}
 	n.trail = append([]string(nil), s.trail...)
+	n.writes = make(map[string]map[string]bool, len(s.writes))
+	for k, v := range s.writes {
+		m := make(map[string]bool, len(v))
+		for a, b := range v {
+			m[a] = b
+		}
+		n.writes[k] = m
+	}
 	n.callN = make(map[string]int, len(s.callN))
 	for k, v := range s.callN {
 		n.callN[k] = v
@@ -189,7 +198,27 @@ func copyMap(m map[string]string) map[string]string {
 	return n
 }
 
-func (s *State) assume(h string) { s.hyps = s.hyps.add(h) }
+func (s *State) assume(h string) {
+	if op, args := sexprArgs(h); op == "and" {
+		for _, a := range args {
+			s.assume(a)
+		}
+		return
+	}
+	s.hyps = s.hyps.add(h)
+}
+
+func (s *State) noteWrite(key, ref string) {
+	if s.writes == nil {
+		s.writes = map[string]map[string]bool{}
+	}
+	m := s.writes[key]
+	if m == nil {
+		m = map[string]bool{}
+		s.writes[key] = m
+	}
+	m[ref] = true
+}
 
 // ---------------------------------------------------------------- heap keys
 
@@ -210,6 +239,13 @@ func (fx *FuncCtx) elemKey(elem types.Type, c comp) HeapKey {
 	k := "A$" + sanitize(typeStr(elem)) + c.suffix
 	if c.kind == "ref" {
 		fx.refKeys[k] = 1
+	}
+	if c.kind == "int" && fx.mode == ModeInt {
+		if lt := leafType(elem, c); lt != nil {
+			if b, _, ok := intInfo(lt); ok && b > 0 {
+				fx.intElemKeys[k] = lt
+			}
+		}
 	}
 	return HeapKey{k, "(Array Int (Array " + fx.mode.lenSort() + " " + c.sort + "))"}
 }
@@ -248,6 +284,12 @@ func (fx *FuncCtx) heapGet(h map[string]string, k HeapKey) string {
 
 func (fx *FuncCtx) heapSet(st *State, k HeapKey, term string) {
 	fx.keySorts[k.Key] = k.Sort
+	// remember which object was written (for syntactic frame checks)
+	if op, args := sexprArgs(term); op == "store" && len(args) == 3 {
+		st.noteWrite(k.Key, args[1])
+	} else {
+		st.noteWrite(k.Key, "*")
+	}
 	// name the new version to keep terms small
 	if len(term) > 48 {
 		n := fx.decls.fresh(k.Key, k.Sort)
@@ -379,6 +421,20 @@ func (fx *FuncCtx) store(st *State, l *Loc, v Val) {
 			st.heap[k.Key] = v.C[i]
 		}
 	}
+}
+
+// elements of a fresh unknown inner array are values of the element type
+func (fx *FuncCtx) assumeArrayTyping(st *State, arr string, elem types.Type, c comp) {
+	if fx.mode != ModeInt || c.kind != "int" {
+		return
+	}
+	lt := leafType(elem, c)
+	if b, _, ok := intInfo(lt); !ok || b == 0 {
+		return
+	}
+	fx.decls.n++
+	q := fmt.Sprintf("q$ty!%d", fx.decls.n)
+	st.assume("(forall ((" + q + " Int)) (! " + fx.ar.rangeFact(sx("select", arr, q), lt) + " :pattern (" + sx("select", arr, q) + ")))")
 }
 
 // typing facts for an unknown value of Go type t
